@@ -13,30 +13,30 @@ TECH = ('explicit TLA+ specification model-checked with TLC; TLC-emitted '
 CLAIMED = {
     'C18': ('5/C18, 3.8',
             "spec/BpchLayout.tla is the bpch layout grammar (general header; per time block and tracer a 36-byte model header, a 168-byte data-block header with category, tracer id, unit, tau0/tau1, dimensions, nested-grid offsets and skip, and the data record with the tracer's own layer count) plus the header-walk automaton of the memory-mapped reader; BpchLayout_MC checks header sizes, skip = data + 8, tiling and that the walk recovers the tracer list on all configurations (1-3 tracers from two categories with different layer counts in any order, grids up to 3x2, nested offsets, 1-3 time blocks) and emits them. Each is serialised by the typed-field encoder with generated tracerinfo/diaginfo tables (category offsets 0/100, scales 2, 1, 1/2) and taken through bpch1(noscale) -> ncf2bpch (the 32-bit words of the output must equal the original), bpch1 with scaling (raw x table scale, unit from the table), write/read of the scaled file, and bpch2; Bpch_Trace validates every step.",
-            'Trusted: the typed-field serialiser, the generated fixed-width tables. Table scales are powers of two and data integer tokens (exact). Truncated bpch files (C14 mentions them) are not scanned yet; vertical-grid metadata (hyai/hybi) is not compared.',
+            'Trusted: the typed-field serialiser, the generated fixed-width tables. Table scales are powers of two and data integer tokens (exact). Truncated bpch files are scanned under C14; vertical-grid metadata (hyai/hybi) is not compared.',
             'layout grammar + read/rewrite/scale traces validated'),
     'C14': ('5/C14, 3.7',
-            'CamxLayout_MC transcribes the decision procedure of the memory-mapped uamiv reader (headers must be mappable; (size - header)/block must be integral) and checks for EVERY cut offset of every configuration (1.1M states thorough) that it never exposes more than the complete steps and reads the full file completely. Every proper prefix of reference-encoded files (all offsets for files up to 1.5 kB, block boundaries +-1 and a sample otherwise) is opened under a timer; Camx_Trace requires raise, or complete steps with data and time flags identical to the full file, never a hang, and the outcome the model predicts.',
-            'Trusted: the typed-field serialiser and the length-marker record walker in harness/camx.py (they know field types, not formats), TLC. Scope: the gridded uamiv format (AVERAGE/EMISSIONS, 1-3 species with names of 1-10 characters, grids up to 3x2x2, 1-3 hourly steps, seven start instants incl. year ends 1999/2011/2069, leap days, the 1970 pivot, both end-of-day spellings) and the meteorological formats one3d, humidity, vertical diffusivity, temperature, height/pressure (grids up to 3x2x2 / 1x2x3, 1-3 steps, three starts). Lateral boundary, land use, wind and cloud/rain are not modelled yet (DESIGN.md I.2); data are integer tokens, arbitrary float payloads only through the byte-identity clause. bpch and the other CAMx formats are not yet covered.',
+            'CamxLayout_MC transcribes the decision procedures of the memory-mapped uamiv, wind, cloud/rain and lateral boundary readers (headers must be mappable; whole blocks; the wind reader walks the first step; the cloud/rain reader guesses 5 or 3 variables from the size) and checks for EVERY cut offset of every configuration (1.4M states thorough; a 1 MB file through closed-form sizes that TLC checks against the grammar) that it never exposes more than the complete steps and reads the full file completely. Every proper prefix of reference-encoded files (all offsets for files up to 1.5 kB, block boundaries +-1 and a sample otherwise) is opened under a timer; Camx_Trace requires raise, or complete steps with data and time flags identical to the full file, never a hang, and the outcome the model predicts.',
+            'Trusted: the typed-field serialiser and the length-marker record walker in harness/camx.py (they know field types, not formats), TLC. Scope: nine formats in one layout grammar - gridded uamiv (AVERAGE/EMISSIONS, 1-3 species with names of 1-10 characters, grids up to 3x2x2, 1-3 hourly steps, seven start instants incl. year ends 1999/2011/2069, leap days, the 1970 pivot, both end-of-day spellings), one3d, humidity, vertical diffusivity, temperature, height/pressure (grids up to 3x2x2 / 1x2x3, 1-3 steps, three starts), wind (two- and three-word time records, grids of at least 4 cells, 1-3 and 7 steps), cloud/rain (5 and 3 variables) and lateral boundary (1-3 species, grids of at least 2x2). Land use is not modelled (DESIGN.md I.2); data are integer tokens, arbitrary float payloads only through the byte-identity clause. GEOS-Chem bpch files: spec/BpchLayout.tla BpchOpenZ is the transcribed header walk + whole-block rule of bpch1, model-checked on every cut offset of 144 configurations (BpchNeverFabricates, BpchFullFileReadsAll, BpchPartialBlock) and bound by Bpch_Trace (kind cuts: outcome = model, exposed blocks identical to the full file). Known findings C14_K1 (headerless met formats), C14_K2 (cloud/rain variant guessed from the size) and C14_K3 (bpch prefix ending on a tracer boundary of the first block) are format-inherent and reported as KNOWN-FINDING.',
             'cut-point model checking + prefix scans validated'),
     'C13': ('5/C13, 3.7',
             'Every reference-encoded file that both reader families accept is opened with the memory-mapped and the sequential reader; Camx_Trace requires equal lengths of the dimensions both define, equal float data and equal time flags (where both define them); a reader that does not terminate within the timeout is a machinery-visible failure.',
-            'Trusted: the typed-field serialiser and the length-marker record walker in harness/camx.py (they know field types, not formats), TLC. Scope: the gridded uamiv format (AVERAGE/EMISSIONS, 1-3 species with names of 1-10 characters, grids up to 3x2x2, 1-3 hourly steps, seven start instants incl. year ends 1999/2011/2069, leap days, the 1970 pivot, both end-of-day spellings) and the meteorological formats one3d, humidity, vertical diffusivity, temperature, height/pressure (grids up to 3x2x2 / 1x2x3, 1-3 steps, three starts). Lateral boundary, land use, wind and cloud/rain are not modelled yet (DESIGN.md I.2); data are integer tokens, arbitrary float payloads only through the byte-identity clause. The RecordFile cursor automaton of the design is not modelled separately.',
-            'both readers on generated files, traces validated'),
+            'Trusted: the typed-field serialiser and the length-marker record walker in harness/camx.py (they know field types, not formats), TLC. Scope: nine formats in one layout grammar - gridded uamiv (AVERAGE/EMISSIONS, 1-3 species with names of 1-10 characters, grids up to 3x2x2, 1-3 hourly steps, seven start instants incl. year ends 1999/2011/2069, leap days, the 1970 pivot, both end-of-day spellings), one3d, humidity, vertical diffusivity, temperature, height/pressure (grids up to 3x2x2 / 1x2x3, 1-3 steps, three starts), wind (two- and three-word time records, grids of at least 4 cells, 1-3 and 7 steps), cloud/rain (5 and 3 variables) and lateral boundary (1-3 species, grids of at least 2x2). Land use is not modelled (DESIGN.md I.2); data are integer tokens, arbitrary float payloads only through the byte-identity clause. spec/RecordFile.tla is the cursor automaton of FortranFileUtil.RecordFile (next, previous, restart_record, unpack, read, eof as functions of file and cursor): RecordFile_MC checks CursorOnRecord, NextFalseOnlyAtEnd, PrevUndoesNext, PrevAfterFailedNext, ScanVisitsAll and EofTruthful on every call sequence of length 4 (quick) / 5 over all tiled files of up to 3 / 4 records, shows that two deviations are detected, and emits every sequence; each is replayed on a real RecordFile and RecordFile_Trace requires (tell, record_start, record_size, return value) after every call to equal Apply(op, lens, cursor).',
+            'both readers on generated files + record-cursor automaton model-checked and replayed, traces validated'),
     'C09': ('5/C09, 3.7',
             'spec/CamxLayout.tla is the independent codec: the published record/field layout as a TLA+ grammar. Direction A: the bytes written by the library are walked into records (length markers only) and every record is matched field by field against Layout(c) (markers agree, exact tiling, header counts, names, time flags as instants, token values). Direction B: Layout(c) is serialised by a typed-field encoder and must be presented as exactly the encoded content by every reader of the format (memory-mapped and sequential) - a symmetric writer/reader error no longer cancels. CamxLayout_MC checks tiling on all configurations.',
-            'Trusted: the typed-field serialiser and the length-marker record walker in harness/camx.py (they know field types, not formats), TLC. Scope: the gridded uamiv format (AVERAGE/EMISSIONS, 1-3 species with names of 1-10 characters, grids up to 3x2x2, 1-3 hourly steps, seven start instants incl. year ends 1999/2011/2069, leap days, the 1970 pivot, both end-of-day spellings) and the meteorological formats one3d, humidity, vertical diffusivity, temperature, height/pressure (grids up to 3x2x2 / 1x2x3, 1-3 steps, three starts). Lateral boundary, land use, wind and cloud/rain are not modelled yet (DESIGN.md I.2); data are integer tokens, arbitrary float payloads only through the byte-identity clause. Known findings C09_K1 (sequential uamiv/temperature readers and day/century roll-over) and C09_K2 (sequential met readers and single-step files) are reported as KNOWN-FINDING.',
+            'Trusted: the typed-field serialiser and the length-marker record walker in harness/camx.py (they know field types, not formats), TLC. Scope: nine formats in one layout grammar - gridded uamiv (AVERAGE/EMISSIONS, 1-3 species with names of 1-10 characters, grids up to 3x2x2, 1-3 hourly steps, seven start instants incl. year ends 1999/2011/2069, leap days, the 1970 pivot, both end-of-day spellings), one3d, humidity, vertical diffusivity, temperature, height/pressure (grids up to 3x2x2 / 1x2x3, 1-3 steps, three starts), wind (two- and three-word time records, grids of at least 4 cells, 1-3 and 7 steps), cloud/rain (5 and 3 variables) and lateral boundary (1-3 species, grids of at least 2x2). Land use is not modelled (DESIGN.md I.2); data are integer tokens, arbitrary float payloads only through the byte-identity clause. Known findings C09_K1 (sequential uamiv/temperature readers and day/century roll-over) and C09_K2 (sequential met readers and single-step files) are reported as KNOWN-FINDING.',
             'layout grammar as codec, both directions validated'),
     'C08': ('5/C08, 3.7',
             'For every configuration emitted by CamxLayout_MC a CAMx-convention file is built from the configuration alone (with and without ETFLAG), written with pncgen(format=uamiv), read back with the memory-mapped reader and written again; Camx_Trace requires the re-read content (dimensions, species order, token data, begin/end time flags as instants) to equal the configuration and the second output to be byte-identical.',
-            'Trusted: the typed-field serialiser and the length-marker record walker in harness/camx.py (they know field types, not formats), TLC. Scope: the gridded uamiv format (AVERAGE/EMISSIONS, 1-3 species with names of 1-10 characters, grids up to 3x2x2, 1-3 hourly steps, seven start instants incl. year ends 1999/2011/2069, leap days, the 1970 pivot, both end-of-day spellings) and the meteorological formats one3d, humidity, vertical diffusivity, temperature, height/pressure (grids up to 3x2x2 / 1x2x3, 1-3 steps, three starts). Lateral boundary, land use, wind and cloud/rain are not modelled yet (DESIGN.md I.2); data are integer tokens, arbitrary float payloads only through the byte-identity clause.',
+            'Trusted: the typed-field serialiser and the length-marker record walker in harness/camx.py (they know field types, not formats), TLC. Scope: nine formats in one layout grammar - gridded uamiv (AVERAGE/EMISSIONS, 1-3 species with names of 1-10 characters, grids up to 3x2x2, 1-3 hourly steps, seven start instants incl. year ends 1999/2011/2069, leap days, the 1970 pivot, both end-of-day spellings), one3d, humidity, vertical diffusivity, temperature, height/pressure (grids up to 3x2x2 / 1x2x3, 1-3 steps, three starts), wind (two- and three-word time records, grids of at least 4 cells, 1-3 and 7 steps), cloud/rain (5 and 3 variables) and lateral boundary (1-3 species, grids of at least 2x2). Land use is not modelled (DESIGN.md I.2); data are integer tokens, arbitrary float payloads only through the byte-identity clause.',
             'layout model + write/read/rewrite traces validated'),
     'C07': ('5/C07, 3.6',
             'spec/NcStore.tla models the fill-value mechanism (disk fill precedence, data fill, netCDF4 auto-masking) - NcStore_MC checks that the mask survives for all 27 combinations of missing_value/fill_value/_FillValue under the specified data fill and exhibits the losing combination under the attribute-first deviation - and defines StoreDiff, the field-by-field meaning of "reproduces" (dimension names/order/lengths/unlimited flags, global attributes, variable names/order/dtype/dimension tuples, masks, bit-identical unmasked values, variable attributes modulo _FillValue on masked variables). Generated files (11 dtypes incl. char, unsigned and 64-bit; unmasked/partly/fully masked; every fill-attribute combination; scalar/1-D/2-D/3-D; unlimited none/first/not first; str/int/float/array attributes; float payloads with -0.0 and denormals) are saved in all four flavours with and without compression, closed, reopened with format named and by auto-detection (one process per case) and validated by NcStore_Trace; a save may raise only when a dtype is not representable in the flavour.',
             'Trusted: the exact (hex) projection, netCDF4/HDF5 themselves. Excluded by construction: unmasked values equal to a fill value, unlimited dimensions used by no variable (netCDF stores no length for them), bool attributes (not a netCDF type). HDF5 internals / compression ratios out of reach.',
             'fill-mechanism model checking + save/reopen traces validated'),
     'C19': ('5/C19, 3.8',
-            'spec/Icartt.tla states the FFI-1001 line layout as a writer automaton (role and token count of every line), the reader role assignment from line index and counts, and the header arithmetic; Icartt_MC checks declared = actual counts and reader/writer role agreement for every structure (1-4 variables, 0-4 comment attributes, 1-4 records) and emits them; for each structure generated files (names, units, missing codes -999/-9999/-99999/-888, masks, magnitudes 1e-30..1e25, negative, zero; plus larger random structures) are written with ncf2ffi1001, tokenised, read with ffi1001() and with pncopen() auto-detection, written and read a second time; Icartt_Trace checks the layout of the text, the declared header/variable counts, and equality of names, order, units, missing codes, masks and %.6e values, and that the second cycle is a fixpoint.',
+            'spec/Icartt.tla states the FFI-1001 line layout as a writer automaton (role and token count of every line), the reader role assignment from line index and counts, and the header arithmetic; Icartt_MC checks declared = actual counts and reader/writer role agreement for every structure (1-4 variables, 0-4 comment attributes, 1-4 records) and emits them; for each structure generated files (names, units, missing codes of 3-7 significant digits incl. the wide -9999999, a fractional and a large positive one, masks, magnitudes 1e-30..1e25, negative, zero; plus larger random structures) are written with ncf2ffi1001, tokenised, read with ffi1001() and with pncopen() auto-detection, written and read a second time; Icartt_Trace checks the layout of the text, the declared header/variable counts, and equality of names, order, units, missing codes, masks and %.6e values, and that the second cycle is a fixpoint.',
             'Trusted: line tokenisation (split on commas), %.6e rendering as the seven-significant-digit comparison. Comment attribute values are single-line strings (a value containing a newline breaks the declared header count: not exercised, noted in DESIGN.md). LLOD/ULOD flag handling not covered.',
             'structure enumeration + write/read traces validated'),
     'C20': ('5/C20, 3.8',
@@ -52,7 +52,7 @@ CLAIMED = {
             'Trusted: TLC, the observation logging (warnings are captured from stderr because the library installs its own showwarning). Coordinates/probes are small integers (exact in float64). Clamping to the end cell with bounds=ignore/warn and left/right=None is accepted as documented behaviour. Datetime front-end time2idx is covered through C12 (date2num round trip) rather than here.',
             'configuration enumeration + lookup observations validated'),
     'C12': ('5/C12, 3.4',
-            'spec/Calendar.tla (civil <-> day number for standard/noleap/all_leap, YYYYJJJ, HHMMSS, unit offsets) is model-checked by Calendar_MC over every day 1900-2101 (round trip, successor-day, Julian, year-length laws); spec/TimeDecode_Trace.tla computes the expected instants of every recorded getTimes() on generated files (CF units x 15 reference spellings x 4 units x 8 calendar attributes x offsets up to 200 years incl. quarter units; TFLAG; SDATE/STIME/TSTEP; tau0; bounds=True) and checks date2num(getTimes()), time2idx(getTimes()) and the CF time variable synthesised from IOAPI metadata.',
+            'spec/Calendar.tla (civil <-> day number for standard/noleap/all_leap, YYYYJJJ, HHMMSS, unit offsets) is model-checked by Calendar_MC over every day 1900-2101 (round trip, successor-day, Julian, year-length laws); spec/TimeDecode_Trace.tla computes the expected instants of every recorded getTimes() on generated files (CF units x 15 reference spellings x 4 units x 8 calendar attributes x offsets up to 200 years incl. quarter units; TFLAG; SDATE/STIME/TSTEP; tau0; bounds=True, which must not raise where getTimes() returns) and checks date2num(getTimes()), time2idx(getTimes()) and the CF time variable synthesised from IOAPI metadata.',
             'Trusted: the TLA+ calendar (proleptic Gregorian = CF standard after 1582), civil-tuple projection of datetimes. Offsets are multiples of 1/4 unit (exact in float64). 360_day/julian calendars are not claimed by the library. Known finding C12_K1 (365/366-day calendars) is reported as KNOWN-FINDING; its deviation signature excludes the sub-domain where the branch is right.',
             'calendar model checking + decode traces validated'),
     'C11': ('5/C11, 3.3',
@@ -64,7 +64,7 @@ CLAIMED = {
             'Trusted: the metadata projection (harness/ioapi_driver.py meta_of: integer attributes, VAR-LIST split in 16-character fields). Not demanded: results with NVARS=0 or an empty time axis, zipped selections (they replace the standard dimensions), operations outside the property list (renameDimension, insertDimension, removeSingleton). spec/Ioapi_MC.tla is the bounded design model of the wrappers (structural file + metadata block, every operation = core effect + the metadata rule of the wrapper): TLC checks Inv_Coherent, Inv_WellFormed and the action property WindowKeeps over all programs of depth 2 (quick) / 3 (thorough), shows for each wrapper that dropping its rule is detected, and emits every program for replay.',
             'bounded wrapper model (Inv_Coherent, sharpness per wrapper) + IOAPI program traces validated'),
     'C06': ('5/C06, 3.1',
-            'Exp_arith (13 operators, masked operands, division by zero -> masked, coordinate pass-through), Exp_eval (expression grammar var/int/binary/where) and Exp_mask (predicate combinations, where with/without dims, coords flag) are evaluated by TLC in exact rationals on every arith/eval/mask step and compared with the logged result.',
+            'Exp_arith (13 operators, masked operands, float division by zero -> masked, integer // and % by zero -> masked as soon as one operand is a masked array and 0 for two plain arrays, coordinate pass-through), Exp_eval (expression grammar var/int/binary/where) and Exp_mask (predicate combinations, where with/without dims, coords flag) are evaluated by TLC in exact rationals on every arith/eval/mask step and compared with the logged result.',
             'Trusted: TLC/SANY, the projection (harness/project.py: integers, rationals with denominator <= 100, hex otherwise), the argument conversion in harness/core_driver.py. Values are exact rationals; cells whose exact value cannot be identified from the float (denominator > 100, float32 magnitude > 2000, float32 variance, 32-bit overflow guards Dec_*) are not decided. Plotting, projections (pyproj missing) and xarray export are out of reach.',
             'arith/eval/mask traces validated'),
     'C04': ('5/C04, 3.2',
@@ -72,7 +72,7 @@ CLAIMED = {
             'Trusted: TLC/SANY, the projection (harness/project.py: integers, rationals with denominator <= 100, hex otherwise), the argument conversion in harness/core_driver.py. Values are exact rationals; cells whose exact value cannot be identified from the float (denominator > 100, float32 magnitude > 2000, float32 variance, 32-bit overflow guards Dec_*) are not decided. Plotting, projections (pyproj missing) and xarray export are out of reach.',
             'stack traces validated against ConcatArr'),
     'C03': ('5/C03, 3.1',
-            'Exp_apply (exact rational reducers sum/min/max/mean/var with masked cells excluded, callables diff/reverse/sub-sampling/cumsum/convolutions along the axis) is evaluated by TLC for every apply step; for several dimensions the result must equal the evaluation in some order of the axes (for commuting reducers the set is a singleton); dimension and coordinate lengths follow the function output length.',
+            'Exp_apply (exact rational reducers sum/min/max/mean/var with masked cells excluded, callables diff/reverse/sub-sampling/cumsum/convolutions along the axis) is evaluated by TLC for every apply step; for several dimensions the result must equal the evaluation in some order of the axes (for commuting reducers the set is a singleton); a dedicated family reduces every pair/triple of dimensions of every template in one call with one reducer name, directly and after a mask() step; dimension and coordinate lengths follow the function output length.',
             'Trusted: TLC/SANY, the projection (harness/project.py: integers, rationals with denominator <= 100, hex otherwise), the argument conversion in harness/core_driver.py. Values are exact rationals; cells whose exact value cannot be identified from the float (denominator > 100, float32 magnitude > 2000, float32 variance, 32-bit overflow guards Dec_*) are not decided. Plotting, projections (pyproj missing) and xarray export are out of reach.',
             'apply traces validated against exact reducers'),
     'C02': ('5/C02, 3.1',
